@@ -847,8 +847,9 @@ def session_prop(st, it, c, out):
             before = n + (1 if sh.get("pending") else 0)
             after = len(buf) + (1 if pend.variant == 1 else 0)
             clauses.append(("backspace_makes_progress", after < before))
-            if sh.get("pending") is None:
-                clauses.append(("backspace_pops_one_code_point", seq_eq(buf, c["buf"][:-1])))
+        if sh.get("pending") is None and n > 0:
+            # whatever is returned (also when the text becomes empty): a plain backspace removes exactly the last code point
+            clauses.append(("backspace_pops_one_code_point", z3.Implies(z3.Not(ctrl), seq_eq(buf, c["buf"][:-1]))))
         if sh.get("pending") is not None:
             # a sign waiting for its consonant is discarded by one backspace: nothing else changes
             clauses.append(("backspace_discards_only_the_waiting_sign",
@@ -938,8 +939,10 @@ def session_shapes(max_n, max_m, max_v):
     return shapes
 
 
-def obl_session_fixed(check, max_n, max_m, max_v, budget_s=None):
+def obl_session_fixed(check, max_n, max_m, max_v, budget_s=None, events=None):
     shapes = session_shapes(max_n, max_m, max_v)
+    if events is not None:
+        shapes = [s for s in shapes if s["event"] in events]
     check.bounds["fixed_session"] = dict(text_code_points="0..%d any scalar values" % max_n, raw_typed_chars="0..%d printable ASCII" % max_m,
                                          pending_sign="None/I/E/OI", key_value_code_points="1..%d" % max_v,
                                          events="key, key without layout value, backspace (ctrl symbolic), commit (any index), finish",
@@ -980,7 +983,7 @@ def confirm_session(check, name, vio, classify, describe):
     return status
 
 
-SEARCH_VALUES = ["ক", "্", "ি", "া", "ঁ", "র", "্য", "ৄ", "ে", "আ"]
+SEARCH_VALUES = ["ক", "্", "ি", "া", "ঁ", "র", "্য", "ৄ", "ে", "আ", "\u200c", "\u200d", "ু"]
 
 
 def native_session_search(v):
@@ -1011,6 +1014,16 @@ def native_session_search(v):
     res = run_replay_parallel(scs, timeout=1200)
     for sc, r in zip(scs, res):
         rr = r["results"]
+        if r.get("crashed"):
+            # the driver process died inside this history (abort, stack overflow) or a step never returned: not a catchable panic, but the
+            # host process would be gone just the same
+            if v["predicted"].get("panic") is not None:
+                keys = [SEARCH_VALUES[PLANT_KEYS.index(s["key"])] if s["key"] in PLANT_KEYS else lay.get("Key_a_Normal")
+                        for s in sc["steps"][1:] if s.get("op") == "key"]
+                return sc, rr[:1], "typing layout values %s then %s does not return: %s" % (keys, json.dumps(ev), rr[0].get("abort") or rr[0].get("panic"))
+            continue
+        if r.get("skipped"):
+            continue
         for i, x in enumerate(rr):
             if x.get("op") != ev["op"] or i + 1 >= len(rr) or rr[i + 1].get("op") != "get_state":
                 continue
@@ -1038,6 +1051,9 @@ def native_session_search(v):
                 bad = True
             if (clause == "backspace_discards_only_the_waiting_sign" and ev["op"] == "backspace" and not ev.get("ctrl") and before.get("pending") is not None
                     and (st.get("buffer") != before.get("buffer") or st.get("pending") is not None)):
+                bad = True
+            if (clause == "backspace_pops_one_code_point" and ev["op"] == "backspace" and not ev.get("ctrl") and before.get("pending") is None
+                    and before.get("buffer") and st.get("buffer") != before.get("buffer")[:-1]):
                 bad = True
             if bad:
                 keys = [SEARCH_VALUES[PLANT_KEYS.index(s["key"])] if s["key"] in PLANT_KEYS else lay.get("Key_a_Normal")
